@@ -72,6 +72,52 @@ PROPS = {
         "assumptions": COMMON_ASSUMPTIONS + ["loopback TCP in the sandbox behaves like TCP"],
         "min_outcomes": 4,
     },
+    "C10": {'level': 'exploration',
+     'technique': 'bounded exhaustive enumeration (model-checking family, no sampling): every form of <=3 parts over a part alphabet x boundary x encoder option '
+                  'set x target struct; bodies come from an independent RFC 7578 encoder, are decoded by the real serde_multipart::from_bytes (one family through '
+                  'a real Multipart<T> handler over read -> router -> send) and compared field by field with the form',
+     'engine': 'vmc',
+     'level_text': 'Bounded exhaustive exploration of the configuration x input space: 5 families, each a full product (quick: all forms of <=2 parts over 128 '
+                   'part kinds x 3 boundaries x 2 option sets x 8 targets, all 3-part forms over reduced alphabets, the empty-file convention up to 3 parts, '
+                   'non-identifier names, 2-part forms through a real handler; thorough: 152 kinds for <=2 parts with all 24 option sets, all 3-part forms over '
+                   '128 kinds x 3 boundaries x 7 option sets x 8 targets = 2.6e8 cases). Decides the statement inside these bounds only; nothing is sampled.',
+     'level_note': "Trusted: the harness's RFC 7578 encoder (bound to the grammar by a strict reference decoder run on every body of the <=2-part families) and "
+                   "the 'fit' table that says what a form means for a field kind; where the statement is silent (undeclared parts, two inputs sharing a name, "
+                   'empty text into Option, absent Content-Type, the empty form) a set of outcomes is admitted and the case is counted as ambiguous. Contents '
+                   'outside the alphabet (long bodies, other byte values) and more than 3 parts are not covered. Cases that kill the process are attributed '
+                   'through per-unit child processes.',
+     'jobs': {'quick': 8, 'thorough': 16},
+     'assumptions': ['features rt_tokio,sse,openapi on x86-64 Linux; other runtimes are not built',
+                     'the harness build uses opt-level 2 with debug-assertions and overflow-checks on (profile `verif`), hooks enabled by --cfg ohkami_verif',
+                     'values outside the stated alphabets / bounds are not covered (DESIGN.md section 9)',
+                     'a form is inside the domain only if CRLF `--` boundary occurs exactly where the encoder put it (a content that starts with the dash-boundary '
+                     'forms a delimiter with the CRLF of the empty header line and is skipped)',
+                     'an empty file input is the browser encoding filename="" with no content; it must decode to None / an empty list (DESIGN section 5 C10)',
+                     'file without Content-Type: mimetype "" and the RFC 7578 default text/plain are both admitted',
+                     'the worker is single-threaded, so fork() without exec is used to contain process aborts (unreachable_unchecked checks) of the subject']},
+    "C11": {'level': 'exploration',
+     'technique': 'bounded exhaustive enumeration (model-checking family, no sampling): request side = every jar of 1..3 (thorough: 4 on a reduced alphabet) '
+                  'cookies with distinct names, each value in every wire form RFC 6265 allows, decoded by the real serde_cookie::from_str into 8 struct shapes and '
+                  'read through Request.headers.Cookies() in a real handler; response side = every name x value x directive combination through '
+                  'SetHeaders::SetCookie, re-read by an independent RFC 6265 Set-Cookie parser, by headers.SetCookie() and from the bytes written by send',
+     'engine': 'vmc',
+     'level_text': 'Bounded exhaustive exploration of the input space: quick = all jars of <=2 cookies over 160 (name, value, wire form) cookies plus all 3-cookie '
+                   'jars over 110 cookies, x (8 targets + iterator) = 5.9e6 cases, and 5 names x 11 values x 512 directive combinations plus 2-cookie responses; '
+                   'thorough = all jars of <=3 over 160 cookies, 4-cookie jars over 95 cookies (1.6e8 cases), 768 directive combinations, 61 504 two-cookie '
+                   'responses. Decides the statement inside these bounds only; nothing is sampled.',
+     'level_note': "Trusted: the harness's cookie encoder/strict readers (self-tested on the RFC 6265 examples, the encoder is bound to the grammar by the strict "
+                   'Cookie reader on every jar of the full alphabet) and the percent convention (a value is what the wire form percent-decodes to). Ambiguous by '
+                   'decision: a plain `%41` (value or encoding of `A`), empty value vs None for Option fields, percent-encoded text into &str, Max-Age=0 (outside '
+                   'the strict section 4.1.1 grammar, accepted by every user agent). Jars with repeated names, names outside the five tokens and values outside '
+                   'the eleven strings are not covered.',
+     'jobs': {'quick': 8, 'thorough': 16},
+     'assumptions': ['features rt_tokio,sse,openapi on x86-64 Linux; other runtimes are not built',
+                     'the harness build uses opt-level 2 with debug-assertions and overflow-checks on (profile `verif`), hooks enabled by --cfg ohkami_verif',
+                     'values outside the stated alphabets / bounds are not covered (DESIGN.md section 9)',
+                     'cookie names are RFC 9110 tokens and pairwise distinct within a jar; undeclared cookies must be ignored by the typed decoder',
+                     'Expires/Domain/Path directive values are well-formed (one rfc1123 date, one host name, up to three paths); only their presence is varied',
+                     'SameSite is read with the RFC 6265bis attribute grammar (RFC 6265 itself would see an extension-av)',
+                     'the worker is single-threaded, so fork() without exec is used to contain process aborts of the subject']},
     "C12": {'level': 'exploration',
      'technique': 'exhaustive enumeration of configurations x token edit families through the real request path against an independent JWT reference (bounded '
                   'model checking of an input/configuration space)',
